@@ -129,12 +129,19 @@ def spec_tuple(sp):
     return (list(g('args')), g('varargs'), g('varkw'), tuple(g('defaults')) if g('defaults') else None, list(g('kwonlyargs')), g('kwonlydefaults'), dict(g('annotations')))
 
 
+def typed(v):
+    """value with the concrete type of every part: what f returns is returned as is, not an equal value of another type"""
+    if isinstance(v, (list, tuple)):
+        return (type(v).__name__, tuple(typed(x) for x in v))
+    return (type(v).__name__, repr(v))
+
+
 def run_sig(case, ctx):
     from pyg_base import getargspec, getcallargs, call_with_callargs, kwargs_support
     sig, stack, call = case['sig'], case['stack'], case['call']
     rec = Rec()
     f = mk_fn(sig, rec)
-    a, k = list(call['a']), dict(call['k'])
+    a, k = [codec.dec(v) for v in call['a']], {n_: codec.dec(v) for n_, v in call['k'].items()}
     st0, direct = ctx.call(f, *a, **k)
     if st0 != 'ok':
         raise HarnessError('generated call invalid: %r %r %r' % (sig, call, direct))
@@ -153,7 +160,7 @@ def run_sig(case, ctx):
     has_ks = 'kwargs_support' in stack
     stw, got = ctx.call(w, *a, **k)
     extra_kw = [x for x in k if x not in NAMES[:sig['npos']]]
-    if not (stw == 'ok' and got == direct):
+    if not (stw == 'ok' and got == direct and typed(got) == typed(direct)):
         mech = None
         if has_ks and sig['varkw'] and extra_kw and stw == 'ok' and got == f(*a, **{x: v for x, v in k.items() if x not in extra_kw}):
             mech = 'kwargs_support-drops-keywords-of-varkw-function'
@@ -328,6 +335,10 @@ def run(spec, ctx):
         for call in calls:
             for stack in (stacks if spec['tier'] == 'thorough' else rng.sample(stacks, min(len(stacks), 9))):
                 case = {'kind': 'sig', 'sig': sig, 'stack': stack, 'call': call}
+                if rng.random() < 0.3:
+                    # other kinds of argument values: None, falsy values, numpy integer scalars
+                    sub = lambda v: rng.choice([v, v, {'$np': ['int64', v]}, {'$np': ['int32', v]}, None, None, 0, '', False])
+                    case['call'] = {'a': [sub(v) for v in call['a']], 'k': {n_: sub(v) for n_, v in call['k'].items()}}
                 ctx.case(case)
                 ctx.run_case(case, run_case)
                 if ctx.full():
